@@ -343,6 +343,9 @@ func (r *Run) Finish() int {
 		fmt.Fprintf(Err, "evidence write: %v\n", err)
 		return 2
 	}
+	// the same file kept per tier, so that a later quick run does not erase what the last thorough run covered
+	os.MkdirAll(filepath.Join(Root, "evidence", "by-tier"), 0o755)
+	_ = os.WriteFile(filepath.Join(Root, "evidence", "by-tier", r.Prop+"."+r.Tier+".json"), b, 0o644)
 	for _, s := range ksigs {
 		v := r.knownHit[s]
 		fmt.Fprintf(Out, "KNOWN-FINDING: property=%s sig=%s %s (hit %d times)\n", r.Prop, s, r.known[s], v.Count)
